@@ -39,6 +39,9 @@ def units(tier, seed):
         for off in offs:
             us.append({"kind": "full-init", "spec": spec, "depth": m + off, "min": m, "max_execs": 600 if tier == "quick" else 6000})
         us.append({"kind": "reject", "spec": spec, "rep": "dsge", "depth": m - 1, "min": m})
+        if spec["name"].startswith("S") and not spec.get("stringify"):
+            us.append({"kind": "reject", "spec": spec, "rep": "dsge", "depth": m - 1, "min": m, "via": "decider"})
+            us.append({"kind": "reject", "spec": spec, "rep": "dsge", "depth": m - 1, "min": m, "via": "lowered"})
         for off in offs:
             us.append({"kind": "map", "spec": spec, "rep": "dsge", "depth": m + off, "min": m,
                        "max_execs_total": 1500 if tier == "quick" else 10000})
@@ -46,6 +49,12 @@ def units(tier, seed):
     for deep in ("S9", "S5", "S20"):
         for shallow in ("S1", "S2", "S11"):
             us.append({"kind": "init-reuse", "spec": shapes[shallow], "deep": shapes[deep], "max_execs": 150})
+    # a grammar used after a sibling grammar over the same class objects (one production left out) was used: every
+    # limit that is feasible for the second one is still usable
+    for spec in [SIB] + [s for s in fam if s["name"].split(":")[0] in ("S3", "S9", "S12", "S16", "S2", "S27") and not s.get("stringify")]:
+        for p in spec["prods"]:
+            for order in ("all-first", "sub-first"):
+                us.append({"kind": "after-sibling", "spec": spec, "drop": p[0], "order": order, "max_execs": 300 if tier == "quick" else 3000})
     small = [s for s in fam if not s["name"].startswith(("F2:", "F3:", "G3:", "G2:"))] if tier == "quick" else fam
     for spec in small:
         m = R.ref_min_depth(spec)[spec["start"]]
@@ -65,6 +74,77 @@ def units(tier, seed):
     return us
 
 
+# A -> Lt(v: V) | Ng(x: A);  V -> Iv(i) | Bx(p: Q);  Q -> Pl(w): without Iv every program through V is one level deeper,
+# while the production list of A is the same in both grammars
+SIB = {"name": "SIB:two-layers", "abstract": [["A", None, "ABC"], ["V", None, "ABC"], ["Q", None, "ABC"]],
+       "prods": [["Lt", "A", None, [["v", G.ref("V")]]], ["Ng", "A", None, [["x", G.ref("A")]]],
+                 ["Iv", "V", None, [["i", G.IR01]]], ["Bx", "V", None, [["p", G.ref("Q")]]], ["Pl", "Q", None, [["w", "bool"]]]],
+       "start": "A"}
+
+
+def run_after_sibling(unit) -> UnitResult:
+    from geneticengine.grammar.grammar import extract_grammar
+
+    r = UnitResult()
+    spec, drop = unit["spec"], unit["drop"]
+    sub = dict(spec)
+    sub["prods"] = [p for p in spec["prods"] if p[0] != drop]
+    sub["name"] = spec["name"] + f"-{drop}"
+    try:
+        m_all = R.ref_min_depth(spec)[spec["start"]]
+        m_sub = R.ref_min_depth(sub)[spec["start"]]
+    except Exception:  # noqa
+        return r
+    if m_all >= R.INF or m_sub >= R.INF or drop == spec["start"]:
+        return r
+    b = G.build(spec)
+    try:
+        try:
+            g_all = b.extract()
+            g_sub = extract_grammar([c for c in b.considered if c.__name__ != drop], b.start)
+        except Exception:  # noqa
+            return r
+        first, second = ((g_all, m_all, spec), (g_sub, m_sub, sub)) if unit["order"] == "all-first" else ((g_sub, m_sub, sub), (g_all, m_all, spec))
+        # the first grammar is used at its feasible limits (every decision path, all three deciders) ...
+        g1, m1, _ = first
+        for dec in ("maxdepth", "pigrow", "full"):
+            for d in (m1, m1 + 1, m1 + 2):
+                for ex in explore(lambda src, dec=dec, d=d: make_rep("tree", g1, src, d, decider=dec).create_genotype(src),
+                                  max_execs=unit["max_execs"], horizon=300, stats=ExploreStats()):
+                    r.executions += 1
+        # ... then the second one: no failure at a feasible limit, no program deeper than the limit
+        g2, m2, spec2 = second
+        for dec in ("maxdepth", "pigrow", "full"):
+            for d in (m2, m2 + 1):
+                st = ExploreStats()
+                for ex in explore(lambda src, dec=dec, d=d: make_rep("tree", g2, src, d, decider=dec).create_genotype(src),
+                                  max_execs=unit["max_execs"], horizon=300, stats=st):
+                    r.executions += 1
+                    if ex.capped:
+                        continue
+                    w = {"unit": P.clean_unit(unit), "decider": dec, "depth": d, "choices": list(ex.choices)}
+                    if ex.exc is not None:
+                        r.add_violation(Violation(PROP, "TreeBasedRepresentation.create_genotype", "feasible-limit-fails",
+                                                  {"rep": "tree", "exc": type(ex.exc).__name__, "at": exc_site(ex.exc), "decider": dec, "after_sibling": True}, w,
+                                                  f"{spec2['name']} (used after {first[2]['name']} on the same classes): max_depth={d} (minimum {m2}), {dec}: "
+                                                  f"{exc_brief(ex.exc)}"))
+                        continue
+                    r.count("programs_checked")
+                    tm = R.term(ex.result)
+                    depth = R.term_depth(tm)
+                    if m2 != m1:
+                        r.nontrivial += 1
+                    if depth > d:
+                        r.add_violation(Violation(PROP, "TreeBasedRepresentation.create_genotype", "depth-exceeded",
+                                                  {"rep": "tree", "op": "create", "decider": dec, "after_sibling": True}, dict(w, program=R.show(tm)[:300]),
+                                                  f"{spec2['name']} (used after {first[2]['name']}): depth {depth} > max_depth {d}: {R.show(tm)[:160]}"))
+        r.states = 1
+        r.samples.append({"after_sibling": spec["name"], "dropped": drop, "order": unit["order"], "min_depths": [m1, m2]})
+    finally:
+        b.cleanup()
+    return r
+
+
 def run_reject(unit) -> UnitResult:
     """max_depth below the grammar minimum must be rejected up-front with the library's error:
     before any choice point is consumed and before any node is constructed."""
@@ -80,6 +160,19 @@ def run_reject(unit) -> UnitResult:
         constructed = []
 
         def run(src):
+            if unit.get("via") == "decider":
+                # the dynamic SGE decider built directly (it is a public class: random_tree(DynamicSGESource(decider), g, decider))
+                import geneticengine.representations.grammatical_evolution.dynamic_structured_ge as D
+                from geneticengine.representations.tree.treebased import random_tree
+
+                dec = D.DynamicSGEDecider(D.Genotype(src, {}), ctx.g, d)
+                return random_tree(D.DynamicSGESource(dec), ctx.g, dec)
+            if unit.get("via") == "lowered":
+                # a representation built with a feasible limit whose max_depth attribute is lowered afterwards
+                rep = make_rep(rep_kind, ctx.g, src, unit["min"] + 1)
+                rep.max_depth = d
+                gt = rep.create_genotype(src)
+                return rep.genotype_to_phenotype(gt)
             rep = make_rep(rep_kind, ctx.g, src, d, decider=unit.get("decider", "maxdepth"))
             constructed.append(True)
             gt = rep.create_genotype(src)
@@ -242,6 +335,8 @@ def run_unit(unit) -> UnitResult:
         return run_full_init(unit)
     if unit["kind"] == "init-reuse":
         return run_init_reuse(unit)
+    if unit["kind"] == "after-sibling":
+        return run_after_sibling(unit)
     return P.drive(unit, oracle)
 
 
